@@ -420,7 +420,7 @@ func Reach(fn *ssa.Function, start ssa.Instruction, cut EdgeSet, barrier func(ss
 		b    *ssa.BasicBlock
 		i    int
 		pred *ssa.BasicBlock
-		env  string // known values of tracked bool cells, encoded "idx=0/1;"
+		env  string // constants known to be stored in tracked memory locations on this path
 	}
 	type key struct {
 		b, pred *ssa.BasicBlock
@@ -435,11 +435,23 @@ func Reach(fn *ssa.Function, start ssa.Instruction, cut EdgeSet, barrier func(ss
 		r := RefOf(start)
 		work = append(work, item{r.B, r.I + 1, nil, ""})
 	}
+	// location key of an address: tracked bool cell, or field of an SSA pointer value
+	locOf := func(addr ssa.Value) string {
+		switch a := addr.(type) {
+		case *ssa.Alloc:
+			if idx, ok := cells[a]; ok {
+				return fmt.Sprintf("A%d", idx)
+			}
+		case *ssa.FieldAddr:
+			return fmt.Sprintf("F%s#%d", a.X.Name(), a.Field)
+		}
+		return ""
+	}
 	for len(work) > 0 {
 		it := work[len(work)-1]
 		work = work[:len(work)-1]
 		env := decodeEnv(it.env)
-		loads := map[ssa.Value]bool{}
+		loads := map[ssa.Value]constant.Value{}
 		stopped := false
 		for i := it.i; i < len(it.b.Instrs); i++ {
 			in := it.b.Instrs[i]
@@ -458,25 +470,35 @@ func Reach(fn *ssa.Function, start ssa.Instruction, cut EdgeSet, barrier func(ss
 				stopped = true
 				break
 			}
-			if len(cells) > 0 {
-				switch x := in.(type) {
-				case *ssa.Store:
-					if a, ok := x.Addr.(*ssa.Alloc); ok {
-						if idx, tracked := cells[a]; tracked {
-							if k, ok := x.Val.(*ssa.Const); ok && k.Value != nil && k.Value.Kind() == constant.Bool {
-								env[idx] = constant.BoolVal(k.Value)
-							} else {
-								delete(env, idx)
-							}
+			switch x := in.(type) {
+			case *ssa.Store:
+				if loc := locOf(x.Addr); loc != "" {
+					if k, ok := x.Val.(*ssa.Const); ok && k.Value != nil && (k.Value.Kind() == constant.Bool || k.Value.Kind() == constant.Int) {
+						env[loc] = k.Value
+					} else {
+						delete(env, loc)
+					}
+				}
+			case *ssa.UnOp:
+				if x.Op == token.MUL {
+					if loc := locOf(x.X); loc != "" {
+						if v, known := env[loc]; known {
+							loads[x] = v
 						}
 					}
-				case *ssa.UnOp:
-					if x.Op == token.MUL {
-						if a, ok := x.X.(*ssa.Alloc); ok {
-							if idx, tracked := cells[a]; tracked {
-								if v, known := env[idx]; known {
-									loads[x] = v
-								}
+				}
+			case ssa.CallInstruction:
+				// a pointer handed to a call may have its fields changed
+				if len(env) > 0 {
+					args := x.Common().Args
+					if x.Common().IsInvoke() {
+						args = append([]ssa.Value{x.Common().Value}, args...)
+					}
+					for _, a := range args {
+						prefix := "F" + a.Name() + "#"
+						for k := range env {
+							if strings.HasPrefix(k, prefix) {
+								delete(env, k)
 							}
 						}
 					}
@@ -492,21 +514,7 @@ func Reach(fn *ssa.Function, start ssa.Instruction, cut EdgeSet, barrier func(ss
 		}
 		if only < 0 {
 			if i := IfOf(it.b); i != nil {
-				c := i.Cond
-				neg := false
-				for {
-					u, ok := c.(*ssa.UnOp)
-					if ok && u.Op == token.NOT {
-						neg = !neg
-						c = u.X
-						continue
-					}
-					break
-				}
-				if v, known := loads[c]; known {
-					if neg {
-						v = !v
-					}
+				if v, known := evalCond(i.Cond, loads); known {
 					if v {
 						only = 0
 					} else {
@@ -531,6 +539,45 @@ func Reach(fn *ssa.Function, start ssa.Instruction, cut EdgeSet, barrier func(ss
 		}
 	}
 	return nil
+}
+
+// evalCond evaluates a branch condition from the constants known for loads of this block.
+func evalCond(c ssa.Value, loads map[ssa.Value]constant.Value) (bool, bool) {
+	neg := false
+	for {
+		u, ok := c.(*ssa.UnOp)
+		if ok && u.Op == token.NOT {
+			neg = !neg
+			c = u.X
+			continue
+		}
+		break
+	}
+	if v, known := loads[c]; known && v.Kind() == constant.Bool {
+		return constant.BoolVal(v) != neg, true
+	}
+	if bo, ok := c.(*ssa.BinOp); ok {
+		var l, r constant.Value
+		if v, known := loads[bo.X]; known {
+			l = v
+		} else if k, ok := bo.X.(*ssa.Const); ok && k.Value != nil {
+			l = k.Value
+		}
+		if v, known := loads[bo.Y]; known {
+			r = v
+		} else if k, ok := bo.Y.(*ssa.Const); ok && k.Value != nil {
+			r = k.Value
+		}
+		_, lLoaded := loads[bo.X]
+		_, rLoaded := loads[bo.Y]
+		if l != nil && r != nil && (lLoaded || rLoaded) && l.Kind() == r.Kind() && l.Kind() == constant.Int {
+			switch bo.Op {
+			case token.EQL, token.NEQ, token.LSS, token.LEQ, token.GTR, token.GEQ:
+				return constant.Compare(l, bo.Op, r) != neg, true
+			}
+		}
+	}
+	return false, false
 }
 
 // boolCells finds local bool variables kept in memory cells (captured by a closure or address
@@ -586,35 +633,43 @@ func boolCells(fn *ssa.Function) map[*ssa.Alloc]int {
 	return out
 }
 
-func encodeEnv(env map[int]bool) string {
+func encodeEnv(env map[string]constant.Value) string {
 	if len(env) == 0 {
 		return ""
 	}
-	keys := make([]int, 0, len(env))
+	keys := make([]string, 0, len(env))
 	for k := range env {
 		keys = append(keys, k)
 	}
-	sort.Ints(keys)
+	sort.Strings(keys)
 	var sb strings.Builder
 	for _, k := range keys {
-		v := 0
-		if env[k] {
-			v = 1
-		}
-		fmt.Fprintf(&sb, "%d=%d;", k, v)
+		fmt.Fprintf(&sb, "%s=%s;", k, env[k].ExactString())
 	}
 	return sb.String()
 }
 
-func decodeEnv(s string) map[int]bool {
-	env := map[int]bool{}
+func decodeEnv(s string) map[string]constant.Value {
+	env := map[string]constant.Value{}
 	for _, part := range strings.Split(s, ";") {
 		if part == "" {
 			continue
 		}
-		var k, v int
-		fmt.Sscanf(part, "%d=%d", &k, &v)
-		env[k] = v == 1
+		kv := strings.SplitN(part, "=", 2)
+		if len(kv) != 2 {
+			continue
+		}
+		switch kv[1] {
+		case "true":
+			env[kv[0]] = constant.MakeBool(true)
+		case "false":
+			env[kv[0]] = constant.MakeBool(false)
+		default:
+			var n int64
+			if _, err := fmt.Sscanf(kv[1], "%d", &n); err == nil {
+				env[kv[0]] = constant.MakeInt64(n)
+			}
+		}
 	}
 	return env
 }
